@@ -350,7 +350,7 @@ Proof.
 Qed.
 
 (* --- load_with_redirect_count --- *)
-Definition proceed_of (st : bstate) (s : spec) (range : option N) (asset in_dyn root : bool) (attr : N) (count : nat)
+Definition proceed_of (st : bstate) (s : spec) (range : option N) (asset in_dyn root : bool) (attr : lattr) (count : nat)
   : bstate :=
   if has_key s (st_redirects st) then set_slot st s (BErr (BLoad s range 1))
   else match class_of W s with
@@ -384,8 +384,8 @@ Proof.
   pose proof (load_target_in st spec0 (proj1 HOk) Hin) as Hs.
   unfold load. fold (proceed_of st (load_target st spec0) range asset in_dyn root attr count).
   set (s := load_target st spec0) in *.
-  destruct (asset && N.eqb attr 9 && negb (mem s (w_wasm_ext W))); [apply set_slot_zero_dec; [exact HOk | exact I]|].
-  destruct (asset && negb (N.eqb attr 0) && negb (N.eqb attr 9) && negb (attr_allowed o attr));
+  destruct (sp_reject W s asset attr); [apply set_slot_zero_dec; [exact HOk | exact I]|].
+  destruct (attr_reject o asset attr);
     [apply set_slot_zero_dec; [exact HOk | exact I]|].
   cbv zeta. fold (proceed_of st s range asset in_dyn root attr count).
   destruct (lookup s (st_slots st)) as [sl|] eqn:El.
@@ -448,7 +448,7 @@ Qed.
 Lemma visit_dep_dec : forall st da,
   Ok st -> (forall x, In x (dep_targets (fst da)) -> In x U) -> Dec st (fst (visit_dep W o st da)).
 Proof.
-  intros st [d asset] HOk HT. unfold visit_dep. cbn [fst snd] in *.
+  intros st [d [asset sp]] HOk HT. unfold visit_dep. cbn [fst snd dfl_asset dfl_sp] in *.
   destruct (d_dyn d && bo_skip_dynamic o); [apply dec_refl; exact HOk|]. cbn [fst].
   unfold dep_targets in HT.
   set (st1 := if include_code (bo_kind o) || is_rnone (d_type d) then _ else st).
